@@ -1,5 +1,8 @@
 import LitexModel.Cdc.AsyncFifo
 import LitexModel.Cdc.BusSync
+import LitexModel.Cdc.AxiLite
+import LitexModel.Cdc.Wrapper
+import LitexModel.Cdc.Monitor
 import LitexModel.DriverLib
 /-
   Numeric port encoding of the clock-domain-crossing models for the line protocol.
@@ -48,6 +51,50 @@ def numAFifoMulti (cfg : List (Nat × Bool)) : NumMachine (List (AFState Nat)) w
         | _, _ => none
       | _, _, _ => none
     go cfg ss ins
+  key s := toString (repr s)
+
+/-- afifo_tok: the FIFO behind `_FIFOWrapper` with the endpoint token field by field.
+    inputs : [tw, tr, mw, mr, sink.valid, sink.payload, sink.param, sink.first, sink.last, source.ready]
+    outputs: [sink.ready, source.valid, source.payload, source.param, source.first, source.last] -/
+def numAFifoTok (k : Nat) (buffered : Bool) (wp wq : Nat) : NumMachine (AFState Nat) where
+  init := afInit k 0
+  step s ins :=
+    match ins with
+    | [tw, tr, mw, mr, v, pl, pm, f, l, r] =>
+      let i : AFIn FTok := { tw := n2b tw, tr := n2b tr, mw := mw, mr := mr, valid := n2b v,
+                             tok := { payload := pl, param := pm, first := n2b f, last := n2b l }, ready := n2b r }
+      let o := wrapSrcTok buffered wp wq s
+      some (wrapStep k buffered wp wq s i,
+            [b2n (writable k s), b2n (srcValid buffered s), o.payload, o.param, b2n o.first, b2n o.last])
+    | _ => none
+  key s := toString (repr s)
+
+/-- monitor: inputs [ts, tc, mRst, mLat, mCnt, reset, latch, enable], outputs [tokens status]. -/
+def numMonitor (w : Nat) : NumMachine MonState where
+  init := monInit
+  step s ins :=
+    match ins with
+    | [ts, tc, m1, m2, mc, rs, la, en] =>
+      some (monStep w s { ts := n2b ts, tc := n2b tc, mRst := n2b m1, mLat := n2b m2, mCnt := mc,
+                          reset := n2b rs, latch := n2b la, enable := n2b en }, [s.s2])
+    | _ => none
+  key s := toString (repr s)
+
+/-- axilite: inputs [t_from, t_to, then for aw, w, b, ar, r: mw, mr, sink.valid, sink.tok, source.ready];
+    outputs for aw, w, b, ar, r: [sink.ready, source.valid, source.tok].  The direction of every channel is the
+    model's (`AxChan.fwd`), not the harness's. -/
+def numAxiLite (k : Nat) : NumMachine (AxState Nat) where
+  init := axInit k 0
+  step s ins :=
+    match ins with
+    | [tf, tt, a1, a2, a3, a4, a5, w1, w2, w3, w4, w5, b1, b2, b3, b4, b5, c1, c2, c3, c4, c5, r1, r2, r3, r4, r5] =>
+      let ch (m1 m2 v d r : Nat) : ChIn Nat := { mw := m1, mr := m2, valid := n2b v, tok := d, ready := n2b r }
+      let x : AxIn Nat := { tf := n2b tf, tt := n2b tt, aw := ch a1 a2 a3 a4 a5, w := ch w1 w2 w3 w4 w5,
+                            b := ch b1 b2 b3 b4 b5, ar := ch c1 c2 c3 c4 c5, r := ch r1 r2 r3 r4 r5 }
+      let o (c : AxChan) : List Nat :=
+        [b2n (writable k (s.ch c)), b2n (srcValid false (s.ch c)), srcTok false 0 (s.ch c)]
+      some (axStep k 0 s x, o .aw ++ o .w ++ o .b ++ o .ar ++ o .r)
+    | _ => none
   key s := toString (repr s)
 
 /-- bussync: inputs [ti, to, mPing, mPong, mBuf, i], outputs [o]. -/
